@@ -210,6 +210,10 @@ func c07Invariant(roll *c07roll) regInv {
 			if !e.Equal(&e) {
 				vio(r, "c07.equal", "banderwagon.Element.Equal", hist, reg+" Equal itself", "false")
 			}
+			z2 := zero
+			if zero.Equal(&zero) || zero.Equal(&z2) {
+				vio(r, "c07.equal", "banderwagon.Element.Equal", hist, "the all-zero value is not Equal to anything, itself included", "true")
+			}
 			if e.Equal(&zero) || zero.Equal(&e) {
 				vio(r, "c07.equal", "banderwagon.Element.Equal", hist, "never Equal to the all-zero value", "true")
 			}
